@@ -248,3 +248,94 @@ func Overlaps(v any, buf []byte) []string {
 	walk(reflect.ValueOf(v), "msg", 0)
 	return out
 }
+
+// SharedMemory walks two values and reports memory both can reach and that is writable through
+// either: slices whose backing arrays (up to their capacity) intersect, and pointers to the same
+// struct. Two values built independently of each other must share none (a write through one,
+// e.g. a decoder filling a preallocated buffer, would show in the other).
+func SharedMemory(a, b any) []string {
+	type span struct {
+		lo, hi uintptr
+		path   string
+	}
+	var spans []span
+	ptrs := map[uintptr]string{}
+	var walk func(v reflect.Value, path string, depth int, record bool, out *[]string)
+	seen := map[uintptr]bool{}
+	walk = func(v reflect.Value, path string, depth int, record bool, out *[]string) {
+		if !v.IsValid() || depth > 64 {
+			return
+		}
+		switch v.Kind() {
+		case reflect.Ptr:
+			if v.IsNil() {
+				return
+			}
+			p := v.Pointer()
+			if v.Elem().Kind() == reflect.Struct && v.Elem().Type().Size() > 0 {
+				if record {
+					ptrs[p] = path
+				} else if w, ok := ptrs[p]; ok {
+					*out = append(*out, fmt.Sprintf("%s and %s point to the same %s", w, path, v.Elem().Type()))
+				}
+			}
+			key := p ^ uintptr(depth)<<56
+			if record {
+				key ^= 1 << 55
+			}
+			if seen[key] {
+				return
+			}
+			seen[key] = true
+			walk(v.Elem(), path, depth+1, record, out)
+		case reflect.Interface:
+			if !v.IsNil() {
+				walk(v.Elem(), path, depth+1, record, out)
+			}
+		case reflect.Struct:
+			for i := 0; i < v.NumField(); i++ {
+				walk(v.Field(i), path+"."+v.Type().Field(i).Name, depth+1, record, out)
+			}
+		case reflect.Slice:
+			if v.IsNil() || v.Cap() == 0 {
+				return
+			}
+			sz := v.Type().Elem().Size()
+			if sz > 0 {
+				lo := v.Pointer()
+				hi := lo + uintptr(v.Cap())*sz
+				if record {
+					spans = append(spans, span{lo, hi, path})
+				} else {
+					for _, s := range spans {
+						if lo < s.hi && hi > s.lo {
+							*out = append(*out, fmt.Sprintf("%s (len %d cap %d) and %s share a backing array", s.path, v.Len(), v.Cap(), path))
+							break
+						}
+					}
+				}
+			}
+			k := v.Type().Elem().Kind()
+			if k == reflect.Ptr || k == reflect.Interface || k == reflect.Struct || k == reflect.Slice {
+				for i := 0; i < v.Len(); i++ {
+					walk(v.Index(i), fmt.Sprintf("%s[%d]", path, i), depth+1, record, out)
+				}
+			}
+		case reflect.Array:
+			k := v.Type().Elem().Kind()
+			if k == reflect.Ptr || k == reflect.Interface || k == reflect.Struct || k == reflect.Slice {
+				for i := 0; i < v.Len(); i++ {
+					walk(v.Index(i), fmt.Sprintf("%s[%d]", path, i), depth+1, record, out)
+				}
+			}
+		case reflect.Map:
+			for _, k := range v.MapKeys() {
+				walk(v.MapIndex(k), fmt.Sprintf("%s[%v]", path, k), depth+1, record, out)
+			}
+		}
+	}
+	var out []string
+	walk(reflect.ValueOf(a), "first", 0, true, &out)
+	walk(reflect.ValueOf(b), "second", 0, false, &out)
+	return out
+}
